@@ -160,8 +160,73 @@ impl Srv {
                 EXPECT.fetch_sub(1, Ordering::SeqCst);
                 Err(format!("didChange error: {e}"))
             }
-            Ok(Ok(())) => wait_processed(Duration::from_secs(WAIT_S)),
+            Ok(Ok(())) => {
+                if std::env::var("C26_CHECKFLUSH").is_ok() {
+                    if let Ok((turi, _)) = self.state.uri_and_session_from_workspace(&self.uri(f)) {
+                        let on_disk = std::fs::read_to_string(turi.to_file_path().unwrap()).unwrap_or_default();
+                        if on_disk != text {
+                            eprintln!("UNFLUSHED {f}: {} bytes on disk, {} expected", on_disk.len(), text.len());
+                        }
+                    }
+                }
+                wait_processed(Duration::from_secs(WAIT_S))
+            }
         }
+    }
+    /// didChange without waiting for the compilation (used for bursts of edits).
+    fn change_nowait(&self, rt: &tokio::runtime::Runtime, f: &str, version: i32, text: &str) -> Result<(), String> {
+        let uri = self.uri(f);
+        let st = self.state.clone();
+        let r = guarded(|| {
+            rt.block_on(notification::handle_did_change_text_document(
+                &st,
+                DidChangeTextDocumentParams {
+                    text_document: VersionedTextDocumentIdentifier { uri, version },
+                    content_changes: vec![TextDocumentContentChangeEvent {
+                        range: None,
+                        range_length: None,
+                        text: text.to_string(),
+                    }],
+                },
+            ))
+        });
+        match r {
+            Err(p) => Err(format!("panic in didChange: {p}")),
+            Ok(Err(e)) => Err(format!("didChange error: {e}")),
+            Ok(Ok(())) => Ok(()),
+        }
+    }
+    /// Wait until the compilation thread is idle: nothing queued, not compiling, and no `recv`
+    /// point for 300 ms. Resynchronises the request counter.
+    fn wait_quiescent(&self, sent: u64) -> Result<(), String> {
+        let t0 = Instant::now();
+        let base = RECV.load(Ordering::SeqCst);
+        let mut last = base;
+        let mut stable_since = Instant::now();
+        loop {
+            let now = RECV.load(Ordering::SeqCst);
+            if now != last {
+                last = now;
+                stable_since = Instant::now();
+            }
+            let idle = self.state.verif_pending_requests() == 0
+                && !self.state.is_compiling.load(Ordering::SeqCst)
+                && now > base;
+            if idle && stable_since.elapsed() > Duration::from_millis(300) {
+                break;
+            }
+            if now >= base + sent && stable_since.elapsed() > Duration::from_millis(300) {
+                break;
+            }
+            if t0.elapsed() > Duration::from_secs(WAIT_S) {
+                EXPECT.store(RECV.load(Ordering::SeqCst), Ordering::SeqCst);
+                let p = PANICS.lock().unwrap().join(" | ");
+                return Err(format!("burst did not finish; panics: {p}"));
+            }
+            std::thread::sleep(Duration::from_millis(2));
+        }
+        EXPECT.store(RECV.load(Ordering::SeqCst), Ordering::SeqCst);
+        Ok(())
     }
     fn save(&self, rt: &tokio::runtime::Runtime, f: &str) -> Result<(), String> {
         let uri = self.uri(f);
@@ -349,6 +414,22 @@ fn main() {
                     }
                     let r = if let Some(f) = stp["save"].as_str() {
                         srv.save(&rt, f)
+                    } else if let Some(b) = stp["burst"].as_array() {
+                        let mut res = Ok(());
+                        for e in b {
+                            let f = e["f"].as_str().unwrap();
+                            let t = e["t"].as_str().unwrap();
+                            version += 1;
+                            files.insert(f.to_string(), t.to_string());
+                            if let Err(e) = srv.change_nowait(&rt, f, version, t) {
+                                res = Err(e);
+                                break;
+                            }
+                        }
+                        if res.is_ok() {
+                            res = srv.wait_quiescent(b.len() as u64);
+                        }
+                        res
                     } else {
                         let f = stp["f"].as_str().unwrap();
                         let t = stp["t"].as_str().unwrap();
